@@ -1,0 +1,50 @@
+//go:build verif
+
+// Contracts for package dst, read by the verification machinery in /verif (govc).
+// Comment-only: this file adds no declarations and is excluded from ordinary builds.
+
+package dst
+
+// ---------------------------------------------------------------------------------------------
+// Decoration lists (decorations.go)
+//
+// View: content(d) = elements [0,len) of *d. A Decorations value owns its backing array: the
+// caller's argument slice lives in a different array (or is empty).
+
+//@ func (d *Decorations) Append
+//@ requires owns: len(decs) == 0 || cap(*d) == 0 || arr(*d) != arr(decs)
+//@ modifies *d, elems(string)
+//@ ensures length: len(*d) == old(len(*d)) + len(decs)
+//@ ensures prefix_kept: forall i int :: 0 <= i && i < old(len(*d)) ==> (*d)[i] == old((*d)[i])
+//@ ensures suffix_is_arg: forall i int :: 0 <= i && i < len(decs) ==> (*d)[old(len(*d)) + i] == old(decs[i])
+//@ ensures arg_unchanged: forall j int :: row(decs)[j] == old(row(decs)[j])
+//@ ensures arg_not_retained: len(decs) == 0 || arr(*d) != arr(decs)
+//@ ensures array_old_or_fresh: arr(*d) == old(arr(*d)) || fresh(arr(*d))
+//@ ensures others_untouched: forall a int, j int :: a != old(arr(*d)) && wasAllocated(a) ==> elem(string, a, j) == old(elem(string, a, j))
+
+//@ func (d *Decorations) Prepend
+//@ modifies *d, elems(string)
+//@ ensures length: len(*d) == old(len(*d)) + len(decs)
+//@ ensures prefix_is_arg: forall i int :: 0 <= i && i < len(decs) ==> (*d)[i] == old(decs[i])
+//@ ensures suffix_kept: forall i int :: 0 <= i && i < old(len(*d)) ==> (*d)[len(decs) + i] == old((*d)[i])
+//@ ensures arg_unchanged: forall j int :: row(decs)[j] == old(row(decs)[j])
+//@ ensures old_array_unchanged: forall j int :: elem(string, old(arr(*d)), j) == old(elem(string, arr(*d), j))
+//@ ensures array_fresh: fresh(arr(*d))
+//@ ensures others_untouched: forall a int, j int :: wasAllocated(a) ==> elem(string, a, j) == old(elem(string, a, j))
+
+//@ func (d *Decorations) Replace
+//@ modifies *d, elems(string)
+//@ ensures length: len(*d) == len(decs)
+//@ ensures content_is_arg: forall i int :: 0 <= i && i < len(decs) ==> (*d)[i] == old(decs[i])
+//@ ensures arg_unchanged: forall j int :: row(decs)[j] == old(row(decs)[j])
+//@ ensures array_fresh: fresh(arr(*d))
+//@ ensures others_untouched: forall a int, j int :: wasAllocated(a) ==> elem(string, a, j) == old(elem(string, a, j))
+
+//@ func (d *Decorations) Clear
+//@ modifies *d
+//@ ensures is_nil: *d == nil && len(*d) == 0 && cap(*d) == 0
+
+//@ func (d *Decorations) All
+//@ modifies nothing
+//@ ensures header_identity: arr(result) == arr(*d) && off(result) == off(*d) && len(result) == len(*d) && cap(result) == cap(*d)
+//@ ensures unchanged: arr(*d) == old(arr(*d)) && off(*d) == old(off(*d)) && len(*d) == old(len(*d)) && cap(*d) == old(cap(*d))
